@@ -68,6 +68,16 @@ def run(chk, prog):
     defer = [bb for bb, si, s in F.stmts() if s['k'] == 'assign'
              and field_leaf(s['pl']) == 'saw_lookahead_unsafe_function_after_new_line'
              and s['rv']['k'] == 'use' and s['rv']['op'].get('bool') is True]
+    soft = [bb for bb, t in F.calls() if callee_short(t) == 'Story::add_error' and len(t['args']) > 2
+            and 'const:false' not in tr.prov(F, t['args'][2])]
+    for i_, bb in enumerate(soft if not refuse else []):
+        chk.fail(R1, chk.key(R1, 'refusal-is-an-error', '#%d' % i_),
+                 '%s raises a message whose severity is not the constant "error" (is_warning comes from %s): a refusal '
+                 'that can be a warning lets the story run on past the call - the text is produced without the value and '
+                 'the continue returns Ok' % (F.short, sorted(a for a in tr.prov(F, F.blocks[bb]['term']['args'][2])
+                                                             if not a.startswith('via:'))[:3]), F.loc(bb))
+    if refuse:
+        chk.ok(R1, chk.key(R1, 'refusal-is-an-error'), 'the refusal is raised with the constant severity "error"', F.loc(refuse[0]))
     chk.anchor(R1, 'REFUSE outcome (add_error(.., false))', refuse)
     chk.anchor(R1, 'DEFER outcome (saw_lookahead_unsafe_function_after_new_line = true)', defer)
 
@@ -221,6 +231,7 @@ def run(chk, prog):
                    'continue_async can reach continue_internal with has_validated_externals false and without calling '
                    'validate_external_bindings: unbound externals are discovered only when executed', ca.loc(0))
     walker_covers_all_children(chk, prog, tr)
+    compiler_marks_external_calls(chk, prog)
 
 
 def walker_covers_all_children(chk, prog, tr):
@@ -283,3 +294,65 @@ def walker_covers_all_children(chk, prog, tr):
     chk.decide(R5, chk.key(R5, 'content-children'), rec_in_loop_over['content'],
                'the walk recurses into the unnamed containers of content',
                'validate_external_bindings_container no longer recurses over Container::content', w.loc(0))
+
+
+FCALL_WITHOUT_TEST = {
+    ('emitter::emit_expression_ctx', 0): 'the name is a LIST name (list_names.contains(name) dominates): a list cannot be '
+                                         'declared EXTERNAL',
+}
+
+
+def compiler_marks_external_calls(chk, prog):
+    """The runtime calls a bound host function only for an `x()` token: every place of the compiler that writes a
+    function call of a name taken from the source as `f()` must have decided before that the name is not EXTERNAL."""
+    from analysis.defuse import consts_of, full_lineage
+    RX = 'C12.compiler-marks-every-external-call'
+    chk.rule(RX, 'Every place of the compiler\'s emitter that writes {"f()": name} with a name that is not a constant is '
+             'dominated by a membership test of that emitter on the set of EXTERNAL names (external_functions.contains, '
+             'directly or inside the closure of an is_some_and / map_or), or is a tabled site with its reason. A call '
+             'emitted as f() runs the ink function of that name and never the host function bound to it.')
+    lt = Tracer(prog, transparent=lambda cs: True, use_summaries=False)
+    n = 0
+    for root in sorted(prog.fns.values(), key=lambda f: f.p):
+        if root.crate != 'bladeink_compiler' or root.parent or '::emitter' not in root.p:
+            continue
+        ordinal = 0
+        for g in prog.with_closures(root):
+            c = cfg(g)
+            tests = []
+            for bb, t in g.calls():
+                cs = callee_short(t)
+                if cs.rsplit('::', 1)[-1] in ('contains', 'contains_key') and t['args'] and \
+                        any(a.startswith('field:') and a.endswith('::external_functions')
+                            for a in full_lineage(prog, g, t['args'][0], _lt=lt)):
+                    tests.append(bb)
+                for cl in (t['f'].get('closures') or []):
+                    h = prog.fns.get(cl)
+                    if h is None:
+                        continue
+                    for hh in prog.with_closures(h):
+                        for b2, t2 in hh.calls():
+                            if callee_short(t2).rsplit('::', 1)[-1] in ('contains', 'contains_key') and t2['args'] and \
+                                    any(a.startswith('field:') and a.endswith('::external_functions')
+                                        for a in full_lineage(prog, hh, t2['args'][0], _lt=lt)):
+                                tests.append(bb)
+            for bb, t in g.calls():
+                if callee_short(t) != 'Map::insert' or len(t['args']) < 3:
+                    continue
+                if 'f()' not in consts_of(lt.prov(g, t['args'][1])):
+                    continue
+                vat = lt.prov(g, t['args'][2])
+                if not any(a.startswith(('arg:', 'field:', 'upvar:')) for a in vat):
+                    continue            # a constant name
+                n += 1
+                tested = any(c.dominates(tb, bb) and tb != bb for tb in tests)
+                tabled = (root.short, ordinal) in FCALL_WITHOUT_TEST
+                chk.decide(RX, chk.key(RX, root.short, '#%d' % ordinal), tested or tabled,
+                           'decided after the test on the EXTERNAL names' if tested else
+                           'tabled: %s' % FCALL_WITHOUT_TEST.get((root.short, ordinal)),
+                           '%s writes a call of a name from the source as {"f()": ..} without having tested the name '
+                           'against the EXTERNAL declarations: if the name is an external function the story calls the ink '
+                           'fallback of that name (or nothing) and the function the host bound is never called'
+                           % root.short, g.loc(bb))
+                ordinal += 1
+    chk.floor(RX, 'places of the emitter that write an f() call of a source name', n, 3)
